@@ -341,19 +341,34 @@ def _maybe_float(value: Any) -> Any:
         return value
 
 
-def _default_matches_schema(default: Any, schema: Schema) -> bool:
+def _default_matches_schema(
+    default: Any, schema: Schema, named_schemas: Optional[NamedSchemas] = None
+) -> bool:
+    """Can the JSON type of `default` match `schema` (a parsed schema: a
+    primitive name, a reference to a named type, or a dict)?"""
     # TODO: Consider using the validate functions here
-    if (
-        (schema == "null" and default is not None)
-        or (schema == "boolean" and not isinstance(default, bool))
-        or (schema == "string" and not isinstance(default, str))
-        or (schema == "bytes" and not isinstance(default, str))
-        or (schema == "double" and not isinstance(_maybe_float(default), float))
-        or (schema == "float" and not isinstance(_maybe_float(default), float))
-        or (schema == "int" and not isinstance(default, int))
-        or (schema == "long" and not isinstance(default, int))
-    ):
-        return False
+    schema_type = extract_record_type(schema)
+    if named_schemas is not None and schema_type in named_schemas:
+        schema_type = extract_record_type(named_schemas[schema_type])
+
+    if schema_type == "null":
+        return default is None
+    elif schema_type == "boolean":
+        return isinstance(default, bool)
+    elif schema_type in ("string", "bytes", "fixed", "enum"):
+        return isinstance(default, str)
+    elif schema_type in ("int", "long"):
+        return isinstance(default, int) and not isinstance(default, bool)
+    elif schema_type in ("float", "double"):
+        return not isinstance(default, bool) and isinstance(
+            _maybe_float(default), float
+        )
+    elif schema_type == "array":
+        return isinstance(default, list)
+    elif schema_type in ("map", "record", "error"):
+        return isinstance(default, dict)
+    elif schema_type == "union":
+        return any(_default_matches_schema(default, s, named_schemas) for s in schema)
     return True
 
 
@@ -384,7 +399,7 @@ def _parse_schema(
         ]
         if default is not NO_DEFAULT:
             for s in parsed_schemas:
-                if _default_matches_schema(default, s):
+                if _default_matches_schema(default, s, named_schemas):
                     break
             else:
                 _raise_default_value_error(default, schema, ignore_default_error)
@@ -558,16 +573,7 @@ def _parse_schema(
         elif schema_type in PRIMITIVES:
             parsed_schema["type"] = schema_type
             if default is not NO_DEFAULT:
-                if (
-                    (schema_type == "null" and default is not None)
-                    or (schema_type == "boolean" and not isinstance(default, bool))
-                    or (schema_type == "string" and not isinstance(default, str))
-                    or (schema_type == "bytes" and not isinstance(default, str))
-                    or (schema_type == "double" and not isinstance(default, float))
-                    or (schema_type == "float" and not isinstance(default, float))
-                    or (schema_type == "int" and not isinstance(default, int))
-                    or (schema_type == "long" and not isinstance(default, int))
-                ):
+                if not _default_matches_schema(default, schema_type):
                     _raise_default_value_error(
                         default, schema_type, ignore_default_error
                     )
